@@ -328,6 +328,66 @@ Section FixedLibChoice.
     - split; [|exact IH3]. intros Ht _. exact (Hsame Ht).
   Qed.
 
+
+  (* ---------------------------------------------------------------- noise blocks can be deleted *)
+
+  Definition Noise (s : fstate) (x : block) : Prop :=
+    dropped s x = true \/ In (bid x) (keys (store (db s))).
+
+  Lemma noise_quiet s S b : Inv s S -> In b U -> Noise s b -> fk_step cfg s b = (s, [], ROk).
+  Proof.
+    intros HI Hb [Hd|Hk]; [exact (fk_step_dropped U cfg U_id s b Hb Hd)|].
+    pose proof HI as [Hnd HU _ _ _]. apply find_is_some_in in Hk as [e He].
+    exact (fk_step_old U cfg Hincl U_id U_uniq s b e HU Hb He (wf_of_U U U_id U_up _ Hnd HU)).
+  Qed.
+
+  (* a block the reference ignores completely is noise for the model *)
+  Lemma fc_ignored_noise fc s S b : FcRel fc s S -> Inv s S -> fstep fc b = fc -> Noise s b.
+  Proof.
+    intros HR HI. unfold fstep, fc_step. rewrite (fc_dropped fc s S b HR HI), Hincl. cbn [andb].
+    destruct (dropped s b) eqn:Hd; [intros _; left; exact Hd|].
+    rewrite (fc_lookup fc s S HR HI). destruct (find (bid b) (store (db s))) as [e|] eqn:F; cbn [option_map].
+    - intros _. right. apply find_is_some_in. eauto.
+    - assert (G : forall f', fc_recv f' = b :: fc_recv fc -> f' = fc -> Noise s b).
+      { intros f' Hr E. rewrite E in Hr. apply (f_equal (@length block)) in Hr. cbn [length] in Hr. lia. }
+      destruct (_ && _).
+      + destruct (ancestor_at _ _ _ _) as [a|]; [destruct (_ <? _)|]; apply G; reflexivity.
+      + apply G. reflexivity.
+  Qed.
+
+  Lemma run_split : forall h1 s S fc, Inv s S -> last_lib_seen s = r0 -> FcRel fc s S -> (forall b, In b h1 -> In b U) ->
+    exists s1 S1, Inv s1 S1 /\ last_lib_seen s1 = r0 /\ FcRel (fc_after cfg fc h1) s1 S1 /\
+      length (fk_run cfg s h1) = length h1 /\
+      forall h2, fk_run cfg s (h1 ++ h2) = fk_run cfg s h1 ++ fk_run cfg s1 h2.
+  Proof.
+    induction h1 as [|b h1 IH]; intros s S fc HI Hseen HR Hh.
+    - exists s, S. split; [exact HI|]. split; [exact Hseen|]. split; [exact HR|]. split; [reflexivity|]. intros h2. reflexivity.
+    - assert (Hb : In b U) by (apply Hh; left; reflexivity).
+      destruct (step_ev U r0 cfg Hnofail Hnew Hundo Hincl U_id U_uniq U_up L_id L_num L_up L_lib s S b HI Hseen Hb)
+        as (s' & evs & S' & Hstep & _ & HI' & Hseen' & _ & Hkind).
+      destruct (fc_follows_step fc s s' S S' b evs HR HI HI' Hb Hkind) as [HR' _].
+      destruct (IH s' S' (fstep fc b) HI' Hseen' HR' (fun x Hx => Hh x (or_intror Hx))) as (s1 & S1 & A1 & A2 & A3 & A4 & A5).
+      exists s1, S1. split; [exact A1|]. split; [exact A2|]. split; [exact A3|].
+      cbn [fk_run app]. rewrite Hstep. cbn [length]. split; [rewrite A4; reflexivity|].
+      intros h2. rewrite A5. reflexivity.
+  Qed.
+
+  Lemma noise_deletion s S fc h1 b h2 : Inv s S -> last_lib_seen s = r0 -> FcRel fc s S ->
+    (forall x, In x (h1 ++ b :: h2) -> In x U) ->
+    fstep (fc_after cfg fc h1) b = fc_after cfg fc h1 ->
+    let T := fk_run cfg s (h1 ++ h2) in
+    fk_run cfg s (h1 ++ b :: h2) = firstn (length h1) T ++ ([], ROk) :: skipn (length h1) T.
+  Proof.
+    intros HI Hseen HR Hh Hig.
+    destruct (run_split h1 s S fc HI Hseen HR (fun x Hx => Hh x (in_or_app _ _ _ (or_introl Hx))))
+      as (s1 & S1 & HI1 & _ & HR1 & Hlen & Happ).
+    assert (Hb : In b U) by (apply Hh; apply in_or_app; right; left; reflexivity).
+    pose proof (noise_quiet s1 S1 b HI1 Hb (fc_ignored_noise _ s1 S1 b HR1 HI1 Hig)) as Hq.
+    cbv zeta. rewrite !Happ. cbn [fk_run]. rewrite Hq.
+    rewrite <- Hlen, firstn_app, Nat.sub_diag, firstn_all, skipn_app, Nat.sub_diag, skipn_all. cbn [firstn skipn app].
+    rewrite app_nil_r. reflexivity.
+  Qed.
+
   (* ---------------------------------------------------------------- the retention setting is never read *)
 
   Section Kept.
